@@ -113,7 +113,7 @@ func doubleCountSafe(m *model, q mQuery) bool {
 	if mm == nil {
 		return true
 	}
-	for _, it := range q.Items {
+	for _, it := range q.operandItems() {
 		if _, ok := mm.Types[it.Field]; !ok {
 			continue
 		}
